@@ -24,7 +24,7 @@ from harness.props.c08 import gen_tree, fresh_names
 
 # ------------------------------------------------------------------ generators
 def gen_world(rng, max_leaves=7):
-    big = rng.random() < 0.2
+    big = rng.random() < 0.3
     if big:
         max_leaves = 10
     data = gen_tree(rng, max_levels=4, max_leaves=max_leaves, min_leaves=1)
@@ -32,7 +32,7 @@ def gen_world(rng, max_leaves=7):
         data[data['hierarchy'][-1]][k] = []
     leaf_level = data['hierarchy'][-1]
     leaves = sorted(data[leaf_level])
-    n_genes = rng.randrange(13, 41) if big else rng.randrange(2, 13)
+    n_genes = rng.randrange(17, 41) if big else rng.randrange(2, 17)
     genes = fresh_names(rng, n_genes, 'g')
     density = rng.choice(['dense', 'dense', 'sparse', 'mixed', 'mixed', 'mixed'])
     if rng.random() < 0.06:
@@ -84,7 +84,7 @@ def gen_world(rng, max_leaves=7):
         query = []                                   # no overlap at all: the code must refuse
     query += fresh_names(rng, rng.randrange(0, 3), 'q')
     rng.shuffle(query)
-    n_per = rng.choice([0, 1, 1, 2, 2, 3, 4, 6] + ([8, 12] if big else []))
+    n_per = rng.choice([0, 1, 1, 1, 2, 2, 2, 3, 3, 4, 6] + ([8, 12] if big else []))
     parents = [None]
     for lv in data['hierarchy'][:-1]:
         parents += [(lv, nd) for nd in data[lv]]
@@ -653,7 +653,7 @@ def cleanup(d):
 
 def run(ctx):
     ctx.rule = ('generated reference-marker files in the HDF5 layout of diff_exp/markers.py (trees <= 4 levels / <= 7 leaves, '
-                '<= 12 genes; per pair: none / dense / sparse / one-sided / few markers, up and down disjoint; small and int64 '
+                '<= 16 genes, 30% bigger: <= 10 leaves / 17..40 genes; per pair: none / dense / sparse / one-sided / few markers, up and down disjoint; small and int64 '
                 'dtypes), query = subset of the reference genes + foreign genes in shuffled order, n_per_utility 0..6, per-parent '
                 'overrides. function level: every parent with >= 1 pair, local and global (behemoth) pair order; stage level: '
                 'select_all_markers over workers x cut-offs + create_marker_gene_lookup_from_ref_list. non-trivial (function) = '
